@@ -72,6 +72,18 @@ class InElastic(_Simu):
         self.__zOld: dict["ElemType", FeArray] = {}
 
     @property
+    def mesh(self):
+        """simulation's mesh."""
+        return _Simu.mesh.fget(self)  # type: ignore [attr-defined]
+
+    @mesh.setter
+    def mesh(self, mesh) -> None:
+        _Simu.mesh.fset(self, mesh)  # type: ignore [attr-defined]
+        # the internal variables belong to the integration points of the mesh they were computed on
+        self.__z = {}
+        self.__zOld = {}
+
+    @property
     def dt(self) -> float:
         """Time increment, read by a rate-dependent material."""
         return self.__dt
